@@ -362,9 +362,10 @@ impl TtlConfig {
         let min = bounds
             .positive_min_ttl
             .unwrap_or_else(|| Duration::from_secs(0));
+        // the built-in default maximum must not undercut a configured minimum
         let max = bounds
             .positive_max_ttl
-            .unwrap_or_else(|| Duration::from_secs(u64::from(MAX_TTL)));
+            .unwrap_or_else(|| Duration::from_secs(u64::from(MAX_TTL)).max(min));
         min..=max
     }
 
@@ -374,9 +375,10 @@ impl TtlConfig {
         let min = bounds
             .negative_min_ttl
             .unwrap_or_else(|| Duration::from_secs(0));
+        // the built-in default maximum must not undercut a configured minimum
         let max = bounds
             .negative_max_ttl
-            .unwrap_or_else(|| Duration::from_secs(u64::from(MAX_TTL)));
+            .unwrap_or_else(|| Duration::from_secs(u64::from(MAX_TTL)).max(min));
         min..=max
     }
 }
